@@ -42,6 +42,9 @@ pub enum Ev {
     Learn { table: u8, a: u8, b: u8, r: u8 },
     /// a tablet with explicit bounds (walk / replay of arbitrary tokens)
     LearnRaw { table: u8, first: i64, last: i64, r: u8 },
+    /// several responses drained at once: ONE `update_tablets` call carrying these tablets in this order;
+    /// items are (table, a, b, r) with universe indexes
+    LearnBatch { items: Vec<(u8, u8, u8, u8)> },
     /// metadata refresh: topology changes (C joins/leaves, A re-created with a new address,
     /// B re-created in another datacenter) and the fetched schema
     Refresh { toggle_c: bool, toggle_d: bool, recreate_a: bool, move_b: bool, schema: Schema },
@@ -52,6 +55,7 @@ impl Ev {
         match self {
             Ev::Learn { table, a, b, r } => serde_json::json!({"ev":"learn","table":table,"a":a,"b":b,"r":r}),
             Ev::LearnRaw { table, first, last, r } => serde_json::json!({"ev":"learn_raw","table":table,"first":first,"last":last,"r":r}),
+            Ev::LearnBatch { items } => serde_json::json!({"ev":"learn_batch","items":items.iter().map(|(t, a, b, r)| serde_json::json!([t, a, b, r])).collect::<Vec<_>>()}),
             Ev::Refresh { toggle_c, toggle_d, recreate_a, move_b, schema } => {
                 let (s, i) = match schema {
                     Schema::AllPresent => ("all_present", 0),
@@ -68,6 +72,7 @@ impl Ev {
         let b = |k: &str| v[k].as_bool().unwrap_or(false);
         match v["ev"].as_str()? {
             "learn" => Some(Ev::Learn { table: u("table")?, a: u("a")?, b: u("b")?, r: u("r")? }),
+            "learn_batch" => Some(Ev::LearnBatch { items: v["items"].as_array()?.iter().map(|x| Some((x[0].as_u64()? as u8, x[1].as_u64()? as u8, x[2].as_u64()? as u8, x[3].as_u64()? as u8))).collect::<Option<_>>()? }),
             "learn_raw" => Some(Ev::LearnRaw { table: u("table")?, first: v["first"].as_i64()?, last: v["last"].as_i64()?, r: u("r")? }),
             "refresh" => {
                 let schema = match v["schema"].as_str()? {
@@ -101,9 +106,13 @@ pub struct Cfg {
     pub move_b: bool,
     /// node D (initially absent) may join / leave
     pub toggle_d: bool,
+    /// A may be re-created with a new address
+    pub recreate_a: bool,
     /// 1-in-k states (by canon hash) whose history is kept for the production-path audit
     pub audit_mod: u64,
     pub audit_cap: usize,
+    /// batch events: 0 none, 2 batches of two tablets, 3 also batches of three
+    pub batch: u8,
 }
 
 impl Cfg {
@@ -111,7 +120,7 @@ impl Cfg {
         serde_json::json!({
             "name": self.name, "universe": self.universe, "probes": self.probes,
             "tables": self.tables.iter().map(|(n, v)| serde_json::json!([n, v])).collect::<Vec<_>>(),
-            "rsets": self.rsets, "combos": self.combos, "move_b": self.move_b, "toggle_d": self.toggle_d,
+            "rsets": self.rsets, "combos": self.combos, "move_b": self.move_b, "toggle_d": self.toggle_d, "batch": self.batch,
         })
     }
     pub fn from_json(v: &serde_json::Value) -> Option<Cfg> {
@@ -126,8 +135,10 @@ impl Cfg {
             combos: v["combos"].as_bool()?,
             move_b: v["move_b"].as_bool()?,
             toggle_d: v["toggle_d"].as_bool().unwrap_or(false),
+            recreate_a: true,
             audit_mod: 0,
             audit_cap: 0,
+            batch: v["batch"].as_u64().unwrap_or(0) as u8,
         })
     }
 }
@@ -270,10 +281,14 @@ impl TabModel {
                 }
             }
         }
+        evs.extend(self.batch_menu());
         for &schema in &self.cfg.schemas {
             for bits in 0..16u8 {
                 let (toggle_c, recreate_a, move_b, toggle_d) = (bits & 1 != 0, bits & 2 != 0, bits & 4 != 0, bits & 8 != 0);
                 if toggle_d && !self.cfg.toggle_d {
+                    continue;
+                }
+                if recreate_a && !self.cfg.recreate_a {
                     continue;
                 }
                 if move_b && !self.cfg.move_b {
@@ -286,6 +301,62 @@ impl TabModel {
             }
         }
         evs
+    }
+
+    /// Batches delivered by one `update_tablets` call. In correct code a batch equals its tablets
+    /// learnt one after the other, so batches add transitions, never states. Shapes: identical range
+    /// with different replica sets (every ordered pair of sets, several ranges), overlapping,
+    /// containing, adjacent and disjoint ranges in both orders, the same range on two tables
+    /// (must not be confused), and with `batch >= 3` triples incl. A,B,A patterns.
+    fn batch_menu(&self) -> Vec<Ev> {
+        let mut out = Vec::new();
+        if self.cfg.batch < 2 {
+            return out;
+        }
+        let n = self.cfg.universe.len() as u8;
+        let nr = self.cfg.rsets.len() as u8;
+        let nt = self.cfg.tables.len() as u8;
+        let hi = n - 1;
+        let mid = n / 2;
+        let full = self.cfg.batch >= 3;
+        let same_ranges: Vec<(u8, u8)> = if !full { vec![(0, 0), (0, hi)] } else if n >= 3 { vec![(0, 0), (mid.saturating_sub(1), mid), (0, hi), (hi, hi)] } else { vec![(0, 0), (0, hi), (hi, hi)] };
+        for t in 0..nt {
+            for &(a, b) in &same_ranges {
+                for r1 in 0..nr {
+                    for r2 in 0..nr {
+                        // quick: neighbouring sets in both orders; thorough: every ordered pair
+                        if r1 != r2 && (full || (r1 + 1) % nr == r2 || (r2 + 1) % nr == r1) {
+                            out.push(Ev::LearnBatch { items: vec![(t, a, b, r1), (t, a, b, r2)] });
+                        }
+                    }
+                }
+            }
+            // overlapping / containing / adjacent / disjoint, both orders
+            let pairs: Vec<((u8, u8), (u8, u8))> = vec![((0, mid), (mid, hi)), ((0, hi), (mid, mid)), ((0, 0), (hi, hi)), ((0, mid.saturating_sub(1).max(0)), (mid, hi))];
+            for (i, (x, y)) in pairs.iter().enumerate().take(if full { 4 } else { 2 }) {
+                let (r1, r2) = ((i as u8) % nr, (i as u8 + 1) % nr);
+                out.push(Ev::LearnBatch { items: vec![(t, x.0, x.1, r1), (t, y.0, y.1, r2)] });
+                out.push(Ev::LearnBatch { items: vec![(t, y.0, y.1, r2), (t, x.0, x.1, r1)] });
+            }
+            if self.cfg.batch >= 3 {
+                for r1 in 0..nr {
+                    let (r2, r3) = ((r1 + 1) % nr, (r1 + 2) % nr);
+                    out.push(Ev::LearnBatch { items: vec![(t, 0, hi, r1), (t, 0, hi, r2), (t, 0, hi, r3)] });
+                    out.push(Ev::LearnBatch { items: vec![(t, mid, mid, r1), (t, mid, mid, r2), (t, mid, mid, r1)] });
+                    out.push(Ev::LearnBatch { items: vec![(t, 0, mid, r1), (t, mid, hi, r2), (t, 0, mid, r3)] });
+                }
+            }
+        }
+        if nt >= 2 {
+            // the same range on the table and on the view in one batch, and interleaved
+            for r1 in 0..nr {
+                let r2 = (r1 + 1) % nr;
+                out.push(Ev::LearnBatch { items: vec![(0, 0, hi, r1), (1, 0, hi, r2)] });
+                out.push(Ev::LearnBatch { items: vec![(1, 0, 0, r1), (0, 0, 0, r2)] });
+                out.push(Ev::LearnBatch { items: vec![(0, 0, 0, r1), (1, 0, 0, r2), (0, 0, 0, r2)] });
+            }
+        }
+        out
     }
 
     pub fn expected_view(&self, topo: &Topo, label: NodeLabel, shard: u32) -> Option<ReplicaView> {
@@ -321,6 +392,24 @@ impl TabModel {
                 self.learn(o, *table, first, last, *r)?;
             }
             Ev::LearnRaw { table, first, last, r } => self.learn(o, *table, *first, *last, *r)?,
+            Ev::LearnBatch { items } => {
+                let mut payloads: Vec<(String, Vec<u8>)> = Vec::new();
+                for (table, a, b, r) in items {
+                    let (first, last) = (self.cfg.universe[*a as usize], self.cfg.universe[*b as usize]);
+                    let raw: Vec<([u8; 16], i32)> = self.cfg.rsets[*r as usize].iter().map(|(l, s)| (*uuid_of(*l).as_bytes(), *s)).collect();
+                    payloads.push((self.cfg.tables[*table as usize].0.clone(), encode_payload(first - 1, last, &raw)));
+                }
+                let refs: Vec<(&str, &str, &[u8])> = payloads.iter().map(|(t, p)| (KS, t.as_str(), p.as_slice())).collect();
+                let outs = catch(|| o.world.learn_batch_from_payloads(&refs)).map_err(|p| complaint("panic:learn", format!("learning batch {items:?} panicked: {p}")))?;
+                if outs.iter().any(|x| !matches!(x, PayloadOutcome::Accepted { .. })) {
+                    return Err(complaint("payload", format!("a payload of batch {items:?} was not accepted: {outs:?}")));
+                }
+                // reference: the tablets in the order they arrived, latest wins
+                for (table, a, b, r) in items {
+                    let raw_ref: Vec<(NodeLabel, u32)> = self.cfg.rsets[*r as usize].iter().map(|(l, s)| (*l, *s as u32)).collect();
+                    o.reference.learn(&self.cfg.tables[*table as usize].0, self.cfg.universe[*a as usize], self.cfg.universe[*b as usize], &raw_ref, &o.topo.known());
+                }
+            }
             Ev::Refresh { toggle_c, toggle_d, recreate_a, move_b, schema } => {
                 let new_topo = Self::next_topo(&o.topo, *toggle_c, *toggle_d, *recreate_a, *move_b);
                 let removed: BTreeSet<NodeLabel> = o.topo.known().difference(&new_topo.known()).copied().collect();
